@@ -69,6 +69,9 @@ func runC02(c *ev.Ctx) {
 	if c.Only < 0 && getenvInt("VERIF_C02_BIG", 1) == 1 {
 		c02BigPartition(c, len(cases))
 	}
+	if c.Only < 0 && (c.Thorough() || getenvInt("VERIF_C02_BIGMETA", 0) == 1) {
+		c02BigMeta(c, len(cases)+8)
+	}
 }
 
 func c02One(c *ev.Ctx, cs ev.Case, pc *pairCover) {
@@ -200,6 +203,13 @@ func checkEncodedFile(c *ev.Ctx, cs ev.Case, data []byte, want *image.NRGBA, src
 		if f.HasALPH {
 			c.Violate(cs, "alpha-dropped-by-decoder", nil, "file has ALPH but Decode returned *image.YCbCr", rep())
 		}
+		// "both yield the same pixels": the picture a caller sees is what the returned image reports through At().
+		// The planes are the format's samples (compared above); how the returned image type turns them into colours
+		// is part of what Decode returns.
+		if got := img.Tight(toNRGBA(dec)); !bytes.Equal(got, lp) {
+			c.Violate(cs, "decoded-colours-differ", map[string]string{"result_type": "ycbcr"},
+				"the *image.YCbCr returned by Decode reports other colours than libwebp decodes: "+firstPixelDiff(got, lp, W), rep())
+		}
 		// x/image on the bare payload
 		if xm, e := ximage.DecodeVP8(bs.Data, false); e != nil {
 			c.Violate(cs, "undecodable-by-ximage", map[string]string{"codec": "VP8 "}, e.Error(), rep())
@@ -291,6 +301,35 @@ func cmpYCbCrGo(a, b *image.YCbCr) string {
 // to / passes the 19-bit length field of the VP8 frame tag (photo-like content at Method 4 costs ~5.4 bytes of
 // mode data per macroblock, so ~5000x5000 pixels). Encode must either fail or emit a file that is
 // structurally valid, decodable by every decoder, with decoders agreeing.
+// c02BigMeta (thorough tier): three metadata blobs, each below the per-blob limit, that add up to more than the
+// 256 MiB the decoding entry points accept. Encode may refuse; a success must be a file Decode reads.
+func c02BigMeta(c *ev.Ctx, idx int) {
+	cs := ev.Case{Idx: idx, Desc: "8x8 picture with ICC + EXIF + XMP of 90 MiB each (270 MiB in total)"}
+	mk := func(seed byte) []byte {
+		b := make([]byte, 90<<20)
+		for i := 0; i < len(b); i += 4099 {
+			b[i] = seed + byte(i>>12)
+		}
+		return b
+	}
+	o := webp.DefaultOptions()
+	o.ICC, o.EXIF, o.XMP = mk(1), mk(2), mk(3)
+	data, err := encode(img.Gen(rng(c, idx), "photo", "opaque", 8, 8), o)
+	c.Eval(1)
+	c.Distinct("bigmeta")
+	if err != nil {
+		c.Extra("big_metadata_case", "Encode refused: "+err.Error())
+		return
+	}
+	c.Extra("big_metadata_case", fmt.Sprintf("Encode wrote %d bytes", len(data)))
+	if _, derr := decode(data); derr != nil {
+		c.Violate(cs, "undecodable-by-package", map[string]string{"bigmeta": "1"}, fmt.Sprintf("Encode returned nil for a %d-byte file that Decode refuses: %v", len(data), derr), map[string]string{"generator": cs.Desc})
+	}
+	if _, ferr := webp.GetFeatures(bytes.NewReader(data)); ferr != nil {
+		c.Violate(cs, "undecodable-by-package", map[string]string{"bigmeta": "1", "entry": "GetFeatures"}, fmt.Sprintf("GetFeatures refuses the %d-byte file Encode wrote: %v", len(data), ferr), map[string]string{"generator": cs.Desc})
+	}
+}
+
 func c02BigPartition(c *ev.Ctx, idx int) {
 	for k, side := range []int{4800, 5800} {
 		cs := ev.Case{Idx: idx + k, Desc: fmt.Sprintf("photo %dx%d lossy Q100 M4 (first partition near/over 2^19 bytes)", side, side)}
